@@ -1,22 +1,25 @@
 -------------------------------- MODULE Seek --------------------------------
 (* The frame-selection prologue of CsgApplication::Run: FirstFrame, then the loop
-     for (bok = true; bok; bok = NextFrame) { if (first_frame > 1) { first_frame--; continue; } break; }
+     for (bok = true; bok; bok = NextFrame) { if ((has_begin && time < begin) || first_frame > 1) { first_frame--; continue; } break; }
    and the --nframes budget.  Declarative meaning: the frames processed are
    first..min(total, first + budget - 1) with first = max(first_frame, 1); a file
    that ends before the first selected frame is an error.  One state per input.   *)
 EXTENDS Integers, Sequences, TLC, Json
-CONSTANTS MaxTotal, MaxFirst, Budgets, Emit
-VARIABLES total, ff, b
-Init == total \in 1..MaxTotal /\ ff \in 0..MaxFirst /\ b \in Budgets
-Next == UNCHANGED <<total, ff, b>>
-Spec == Init /\ [][Next]_<<total, ff, b>>
-First == IF ff < 1 THEN 1 ELSE ff
+CONSTANTS MaxTotal, MaxFirst, Budgets, Begins, Emit
+VARIABLES total, ff, b, bg      \* bg: --begin (frame i carries time i in the harness' trajectory)
+Init == total \in 1..MaxTotal /\ ff \in 0..MaxFirst /\ b \in Budgets /\ bg \in Begins
+Next == UNCHANGED <<total, ff, b, bg>>
+Spec == Init /\ [][Next]_<<total, ff, b, bg>>
+\* declarative: the first frame that is neither before --begin nor before --first-frame
+FirstByIndex == IF ff < 1 THEN 1 ELSE ff
+FirstByTime == IF bg < 1 THEN 1 ELSE bg
+First == IF FirstByIndex > FirstByTime THEN FirstByIndex ELSE FirstByTime
 Last == IF b < 0 THEN total ELSE IF First + b - 1 < total THEN First + b - 1 ELSE total
 \* transcription of the loop: position after seeking, or 0 if the file ended
 RECURSIVE Loop(_, _)
-Loop(posn, left) == IF posn > total THEN 0 ELSE IF left > 1 THEN Loop(posn + 1, left - 1) ELSE posn
+Loop(posn, left) == IF posn > total THEN 0 ELSE IF posn < bg \/ left > 1 THEN Loop(posn + 1, left - 1) ELSE posn
 AlgoFirst == Loop(1, ff)
 AlgoIsSpec == AlgoFirst = (IF First > total THEN 0 ELSE First)
-Vector == Emit => PrintT(ToJson([total |-> total, ff |-> ff, b |-> b, err |-> First > total,
+Vector == Emit => PrintT(ToJson([total |-> total, ff |-> ff, b |-> b, bg |-> bg, err |-> First > total,
                                   lo |-> First, hi |-> Last]))
 =============================================================================
